@@ -10,7 +10,7 @@ CLAIMED = {
  "C09": {
   "technique": "TLA+ model checking (TLC: safety exhaustive, liveness under fairness) of spec/TaskQueue.tla; TLC-generated behaviours replayed on the real TaskQueue; recorded traces validated by TLC against TaskQueueTrace.tla",
   "level": "model_checking",
-  "text": "TLC explores every interleaving of schedule/claim/finish/reschedule/follow-up/crash/start-up over 4-5 task names and 4 time levels (safety: earliest-first, soonest-kept, nothing lost, nothing stranded in 'running' after start-up, recurring tasks queued) and checks under fairness that every queued task eventually runs and recurring tasks run again and again. The same spec is bound to the code: TLC-generated behaviours are executed on the real TaskQueue (disk and memory back-end) and each recorded trace must be a behaviour of the spec, with every invariant evaluated at every step.",
+  "text": "TLC explores every interleaving of schedule/claim/finish/reschedule/follow-up/crash/start-up over 4-5 task names and 4 time levels (safety: earliest-first, soonest-kept, nothing lost, nothing stranded in 'running' after start-up, recurring tasks queued) and checks under fairness that every queued task eventually runs and recurring tasks run again and again. In the CA histories (Krill.tla traces with held tasks) TLC requires in every state that the recurring synchronisation of every hosted CA with each of its parents is somewhere in the real queue - due, scheduled for later or running - whatever the outcome of its last run (C09_ParentSyncKept), and that what is served equals the repository content at every settle point. The same spec is bound to the code: TLC-generated behaviours are executed on the real TaskQueue (disk and memory back-end) and each recorded trace must be a behaviour of the spec, with every invariant evaluated at every step.",
   "note": "Trusted: TLC; the projection of storage keys '<millis>-<name>' onto abstract time levels; the harness replicates the two lines of run_scheduler. Not covered here: the follow-up table of mq.rs (bound by the CA traces of C01-C04), crash points inside a queue operation (C08).",
   "ref": "§6 C09, §4.2", "engines": ["TLC", "krillverif"]},
 }
@@ -33,13 +33,13 @@ CLAIMED.update({
   "Krill.tla models CAs, delegation, key states, configured ROAs, what each CA publishes and the follow-up tasks of every change, at the grain of one API command / one background task. TLC checks exhaustively (bounded) that in every settled state the relying-party view derived from the published state is clean and the validated route origins are exactly the configured ones covered by a current certificate. The same spec judges the real code: TLC-generated behaviours (API calls interleaved with single named tasks and settle points) run on a real Krill; after every event the projected state must be exactly the successor the spec allows, every file under a key must be on its manifest and vice versa, and a relying-party walk over the real repository (rpki crate validation) must yield exactly the VRPs the spec derives and no problem in settled states.",
   "§6 C01, §4.3"),
  "C02": krill_claim(
-  "Same model and binding as C01. Decides: every newly issued child certificate is within entitlement and issuer certificate (step property), no published child certificate exceeds the publisher's own current certificate whenever its publication is up to date, a settle (refresh rounds + tasks to a fixed point, bounded to 8 rounds on the real code) leaves every active child with exactly the offered resources and no open request, and another round changes nothing (the harness's fixed point must be a Settled state of the spec). Request limits, mapped class names and the signed RFC 6492 path are covered by children that are not hosted by the instance (Foreign in Krill.tla: the harness plays the child: list, issue with an arbitrary resource limit, revoke; the certificate carries exactly the limit, a limit outside the offer is refused, shrinking / re-issue at a key activation / suspension apply to such certificates like to any other).",
+  "Same model and binding as C01. Decides: every newly issued child certificate is within entitlement and issuer certificate (step property), no published child certificate exceeds the publisher's own current certificate whenever its publication is up to date, a settle (refresh rounds + tasks to a fixed point, bounded to 8 rounds on the real code) leaves every active child with exactly the offered resources and no open request, and another round changes nothing (the harness's fixed point must be a Settled state of the spec). 'Converges' is also a temporal property (MC_Krill_live: once the environment is done, every CA ends up for good with exactly what its parent offers, no open request and the parent issuing what the CA holds) that TLC checks under weak fairness of the background tasks and the periodic refresh, without state constraint; a false temporal property must be refuted on every run. Hierarchies four levels deep (theme deep) include the removal of a parent by a CA that has children. Request limits, mapped class names and the signed RFC 6492 path are covered by children that are not hosted by the instance (Foreign in Krill.tla: the harness plays the child: list, issue with an arbitrary resource limit, revoke; the certificate carries exactly the limit, a limit outside the offer is refused, shrinking / re-issue at a key activation / suspension apply to such certificates like to any other).",
   "§6 C02, §4.3"),
  "C03": krill_claim(
-  "Same model and binding as C01. On the recorded traces TLC keeps, per real key, the history of every object identity (issuer key + serial) ever current under the key and requires in every state that whatever is no longer current is on that key's CRL as long as the key publishes one, that nothing current is revoked, and that manifest and CRL numbers agree; withdrawn objects are gone because the projected publication content must equal the spec's. Histories cover re-issue, ROA removal, child removal/suspension, resource loss, CA deletion, key retirement by a roll, and revocation requests of a child that is not hosted by the instance (signed RFC 6492 messages under the class name the child was told, also a mapped one, also after the parent's class went away and came back under another name).",
+  "Same model and binding as C01. On the recorded traces TLC keeps, per real key, the history of every object identity (issuer key + serial) ever current under the key and requires in every state that whatever is no longer current is on that key's CRL as long as the key publishes one, that nothing current is revoked, and that manifest and CRL numbers agree; withdrawn objects are gone because the projected publication content must equal the spec's. Histories cover re-issue, ROA removal, child removal/suspension, resource loss, CA deletion, removal of a parent by a CA that has children and grandchildren (everything issued under the class goes with it, level by level; also in the middle of a roll and with a suspended grandchild), key retirement by a roll, and revocation requests of a child that is not hosted by the instance (signed RFC 6492 messages under the class name the child was told, also a mapped one, also after the parent's class went away and came back under another name).",
   "§6 C03, §4.3"),
  "C04": krill_claim(
-  "Same model and binding as C01, roll-heavy behaviours: roll initiation/activation interleaved at single-task granularity with entitlement changes, suspension, ROA changes and syncs. Decides: every key in use has a certificate, staging key publishes manifest+CRL only, after activation products move to the new key in one publication (old key's products tracked separately until the next sync), activation is refused only in the two cases the spec predicts, and every settle ends in the single-active-key state or at rest in roll_new.",
+  "Same model and binding as C01, roll-heavy behaviours: roll initiation/activation interleaved at single-task granularity with entitlement changes, suspension, ROA changes and syncs. Decides: every key in use has a certificate, staging key publishes manifest+CRL only, after activation products move to the new key in one publication (old key's products tracked separately until the next sync), activation is refused only in the two cases the spec predicts, and every settle ends in the single-active-key state or at rest in roll_new. 'Always completes' is checked by TLC as temporal properties under weak fairness of the background tasks (MC_Krill_live: a new key gets its certificate, after the activation the old key is revoked and its publication point goes away; exceptions are exactly the recorded findings and a parent that no longer knows the CA), with a false temporal property refuted on every run.",
   "§6 C04, §4.3"),
  "C14": krill_claim(
   "Same model and binding as C01, with the maintenance tasks (Republish, Renew) as actions whose effect depends on whether something is due. Due-ness is produced on the real code by restarting the instance with timing values whose margins exceed the lifetimes (everything due) and back (nothing due), never by changing code. Around every maintenance run TLC compares the serial-number level facts of every real key decoded from the repository: manifest and CRL number +1 exactly and the same objects (re-issue), every route origin object replaced by a new one with the published payloads unchanged (renewal), nothing at all changed when nothing is due. In every state of every trace: manifest and CRL numbers agree and never go down, validity windows contain the present, and what a CA's object store holds is published whenever no repository synchronisation is pending (operations while everything is due exercise re-issue as a side effect of commands).",
@@ -104,7 +104,7 @@ CLAIMED.update({
  "C08": {
   "technique": "TLA+ model of the mutation pipeline (spec/PipelineDefs.tla, Pipeline.tla: every operation split into its real sequence of key-value and file-system mutations, Crash(k) / IoError(k) between any two, Restart, Pump, Resubmit) checked with TLC (-continue: the set of bad cuts of the design); every cut of every operation instance enumerated on the real code through the fault points; TLC (PipelineTrace.tla) judges every executed cut",
   "level": "fault_enumeration",
-  "text": "Ten scenarios (roa, chain, roll, create, maint, trunc, pubrm, pubadd, remote, remove) expand into 99 operation instances: 24 API request kinds (among them the provisioning requests of a child that is not hosted by the instance: issuance with and without a resource limit, the call-in of a suspended child, revocation, as signed messages through CaManager::rfc6492) and the task kinds sync_parent (both halves, revocation variant), sync_repo, update_rrdp, in the state classes active key, roll_new, roll_old, pending key, queued / unqueued synchronisation, last / not-last publication. The real mutation sequence of each instance is recorded with the fault injector in Count mode; every cut k = 1..N x {crash, failing write} gives 2044 cases (thorough: all; quick: 220 seeded cases covering every kind x mutation-class x mode stratum). Each case runs on the disk back-end: a crash is a fresh runtime on the surviving directory plus the start-up lines of the scheduler; then pump, resubmit, the rest of the chain, settle; a fault-free twin runs once per scenario. TLC checks per case that the mutations before the cut are the twin's, that the durable key set equals the fold of the mutations that took effect, that the process goes down and the request is acknowledged exactly where the model says, and evaluates the clauses AllLoad, AckedNeverLost, UnackedAllOrNothing (audit log, memory, object set), RPCleanAfterRestart / AfterPump / Final (relying-party walk over server content, on-disk RRDP snapshot and rsync tree, relative to the twin) and TwinEquivalence on the observed facts; verdicts are compared with the model's predictions.",
+  "text": "Eleven scenarios (roa, chain, roll, create, maint, trunc, snap, pubrm, pubadd, remote, remove) expand into 103 operation instances: 25 API request kinds (among them the daily snapshot job, which folds the publication server's change sets into a new snapshot and removes them, and the provisioning requests of a child that is not hosted by the instance: issuance with and without a resource limit, the call-in of a suspended child, revocation, as signed messages through CaManager::rfc6492) and the task kinds sync_parent (both halves, revocation variant), sync_repo, update_rrdp, in the state classes active key, roll_new, roll_old, pending key, queued / unqueued synchronisation, last / not-last publication. The real mutation sequence of each instance is recorded with the fault injector in Count mode; every cut k = 1..N x {crash, failing write} gives 2156 cases (thorough: all; quick: 220 seeded cases covering every kind x mutation-class x mode stratum). Each case runs on the disk back-end: a crash is a fresh runtime on the surviving directory plus the start-up lines of the scheduler; then pump, resubmit, the rest of the chain, settle; a fault-free twin runs once per scenario. TLC checks per case that the mutations before the cut are the twin's, that the durable key set equals the fold of the mutations that took effect, that the process goes down and the request is acknowledged exactly where the model says, and evaluates the clauses AllLoad, AckedNeverLost, UnackedAllOrNothing (audit log, memory, object set), RPCleanAfterRestart / AfterPump / Final (relying-party walk over server content, on-disk RRDP snapshot and rsync tree, relative to the twin) and TwinEquivalence on the observed facts; verdicts are compared with the model's predictions.",
   "note": "Assumed: a disk back-end mutation is atomic (cuts are between mutations, never inside one); one fault per history; the label-to-effect translation; same-millisecond task ties resolved in a fixed order; passing time replaced by making rescheduled tasks due; single resource class, local parent and local repository. The ta_proxy / ta_signer / keys / signers namespaces are cut points but their durable effect is not compared. Known findings: the pre-save ordering (upstream issue 1182) and its non-converging consequences, RRDP/rsync files not rewritten after a failed update, publish delta stored but update task lost, no rsync current directory between the two renames, post-save reschedule drops a sync task, delete_ca withdraws best effort.",
   "ref": "§6 C08", "engines": ["TLC", "kv-fault"]},
  "C18": {
